@@ -284,14 +284,14 @@ def gen_cases(rng, tier):
         m = max(m, 2)
         for k in (m * m, m * (m + 1), m * (m - 1)):    # all have a divisor close to sqrt(k): short loops
             ns.append(3 * k)
+    for n in ns:
+        # the model's loop counter is a unary number: beyond k = 10^9 only the oracle judges the code
+        cases.append(dict(k="dims", n=n, cls="dims" if n <= 3 * 10 ** 9 else "dims-large"))
     # every k up to a bound, judged by the sieve oracle only (the model is compared on the cases above)
     top = 10 ** 6 if big else 60000
     step = 20000
     for lo in range(1, top + 1, step):
         cases.append(dict(k="dimsrange", lo=lo, hi=min(lo + step, top + 1), cls="dims-range"))
-    for n in ns:
-        # the model's loop counter is a unary number: beyond k = 10^9 only the oracle judges the code
-        cases.append(dict(k="dims", n=n, cls="dims" if n <= 3 * 10 ** 9 else "dims-large"))
     return cases
 
 
@@ -303,10 +303,9 @@ HEADER = ("From Coq Require Import ZArith List. Import ListNotations. Open Scope
 def coq_expr(c, out):
     """Expression whose value says whether the model reproduces the implementation's output."""
     if c["k"] == "machine":
-        eth = [v for e in (out[2] if out[0] == "ok" else []) for v in e]
-        return ("(digest (machine_outputs %s %s %s %s), first_diff (pairs_flat (spinn5_eth_coords %s %s %s %s)) %s 0)"
+        return ("(digest (machine_outputs %s %s %s %s), spinn5_eth_coords %s %s %s %s)"
                 % (zlit(c["w"]), zlit(c["h"]), zlit(c["rx"]), zlit(c["ry"]),
-                   zlit(c["w"]), zlit(c["h"]), zlit(c["rx"]), zlit(c["ry"]), vlist(zlit(v) for v in eth)))
+                   zlit(c["w"]), zlit(c["h"]), zlit(c["rx"]), zlit(c["ry"])))
     if c["k"] == "dims":
         return "standard_system_dimensions %s" % zlit(c["n"])
     fn = dict(local="spinn5_local_eth_coord", chip="spinn5_chip_coord", fpga="spinn5_fpga_link",
@@ -326,9 +325,10 @@ def digest(vals):
 
 def canon_model(c, v):
     if c["k"] == "machine":
-        return ["digest", [v[0], v[1]], "eth-list-differs-at", v[2]]      # ((a, b), d) prints as (a, b, d)
+        # ((a, b), l) prints as (a, b, l); the order in which the generator yields is not part of the property
+        return ["digest", [v[0], v[1]], "eth-coords-sorted", sorted(list(p) for p in v[2])]
     if c["k"] == "point" and c["f"] == "eth":
-        return ["ok", [list(p) for p in v]]
+        return ["ok", sorted(list(p) for p in v)]
     if v[0] == "Ok":
         r = v[1]
         if r is None:
@@ -343,9 +343,11 @@ def canon_model(c, v):
 
 def canon_impl(c, o):
     if c["k"] == "machine":
-        return ["digest", digest(o[1]), "eth-list-differs-at", None] if o[0] == "ok" else [o[0]]
+        return ["digest", digest(o[1]), "eth-coords-sorted", sorted(o[2])] if o[0] == "ok" else [o[0]]
     if o[0] == "other":
         return ["other"]
+    if c["k"] == "point" and c["f"] == "eth":
+        return ["ok", sorted(o[1])]
     return list(o[:2])
 
 
